@@ -18,6 +18,7 @@ import (
 	"github.com/foxboron/go-uefi/efi/util"
 	"github.com/foxboron/go-uefi/efivar"
 
+	"verif/gen/dpgen"
 	"verif/internal/hx"
 	"verif/ref/refesl"
 	"verif/weakeq"
@@ -33,7 +34,7 @@ func init() {
 			"non-trivial = every oracle clause was evaluated for the value; distinct = distinct GUID / string",
 		Assumptions: []string{"2^128 GUIDs are covered only through per-byte and per-field local patterns (width, padding and byte-order bugs are local)", "Go's unicode/utf16 as string reference"},
 		Units: func(tier string) []string {
-			return []string{"guid-bits", "guid-bytes", "guid-data1", "guid-data2", "guid-data3", "guid-consts", "guid-cmp", "utf16-short", "utf16-scalars", "utf16-long"}
+			return []string{"guid-bits", "guid-bytes", "guid-data1", "guid-data2", "guid-data3", "guid-consts", "guid-cmp", "utf16-short", "utf16-pairs", "utf16-scalars", "utf16-long", "utf16-path-nodes"}
 		},
 		Run:    c17Run,
 		Budget: dur(3*time.Minute, 10*time.Minute),
@@ -450,6 +451,67 @@ func c17Run(c *hx.Ctx, tier, unit string) {
 		}
 		rec(nil)
 		c.Sample(map[string]any{"string": "Aé\U0001F600", "utf16le": hx8(util.MarshalUtf16Var("Aé\U0001F600"))})
+	case "utf16-pairs":
+		// every ordered pair (and the pair between two ASCII letters) of code points whose high or low octet
+		// is one that byte-wise handling of UTF-16 trips over (00, FF, FE, FD, D8, DC, 0A): octet sequences
+		// such as FD FF, FF FE, 00 00, 00 D8 then also arise ACROSS two code units
+		var cps []rune
+		for _, hi := range []rune{0x00, 0x01, 0x0a, 0xd7, 0xe0, 0xfd, 0xfe, 0xff} {
+			for _, lo := range []rune{0x00, 0x01, 0x0a, 0xd8, 0xdc, 0xfd, 0xfe, 0xff} {
+				if r := hi<<8 | lo; r != 0 && utf8.ValidRune(r) {
+					cps = append(cps, r)
+				}
+			}
+		}
+		cps = append(cps, 0x1F600, 0x10FFFF, 0x10000)
+		for _, a := range cps {
+			for _, b := range cps {
+				c17Str(c, string([]rune{a, b}))
+				c17Str(c, string([]rune{'x', a, b, 'y'}))
+			}
+		}
+	case "utf16-path-nodes":
+		// the strings inside consecutive file-path nodes of a device path: each is a NUL-terminated UTF-16LE
+		// string of its own and decodes to exactly what was encoded, whatever stands in the node before it
+		names := []string{"\\", "\\EFI\\", "\\EFI", "EFI\\", "EFI", "\\\\", "x", "\u00e9\\", "\\\U0001F600", "/"}
+		for _, a := range names {
+			for _, b := range names {
+				for _, d := range append([]string{""}, names[:3]...) {
+					if !c.Next() {
+						continue
+					}
+					seq := []string{a, b}
+					if d != "" {
+						seq = append(seq, d)
+					}
+					var enc []byte
+					for _, n := range seq {
+						enc = append(enc, dpgen.Node{Kind: "File", Path: n}.Bytes()...)
+					}
+					enc = append(enc, dpgen.End...)
+					var nodes []device.EFIDevicePaths
+					var err error
+					if p := hx.Try(func() { nodes, err = device.ParseDevicePath(bytes.NewReader(enc)) }); p != nil || err != nil {
+						c.Outcome("violation")
+						c.Violation("C17 string: decoding consecutive file-path nodes fails", map[string]any{"names": seq, "error": fmt.Sprint(err, p)})
+						continue
+					}
+					var got []string
+					for _, n := range nodes {
+						if f, ok := n.(device.FileTypeMediaDevicePath); ok {
+							got = append(got, f.PathName)
+						}
+					}
+					if fmt.Sprintf("%q", got) != fmt.Sprintf("%q", seq) {
+						c.Outcome("violation")
+						c.Violation("C17 string: a file-path node's string does not decode to the string that was encoded", map[string]any{"encoded": seq, "decoded": got})
+						continue
+					}
+					c.Outcome("string-ok")
+					c.Nontrivial(enc)
+				}
+			}
+		}
 	case "utf16-scalars":
 		for r := rune(1); r <= 0xFFFF; r++ {
 			if r >= 0xD800 && r <= 0xDFFF {
